@@ -94,6 +94,11 @@ pub fn shards(tier: &str) -> Vec<String> {
         for o in ["012", "210", "120"] {
             v.push(format!("{k}:n3:{o}:bin"));
         }
+        // build / eval / constant / var / restrict on three variables under every order (two of them are
+        // 3-cycles: level and variable number differ in both directions)
+        for o in ["012", "021", "102", "120", "201", "210"] {
+            v.push(format!("{k}:n3:{o}:eval"));
+        }
     }
     v
 }
@@ -563,9 +568,14 @@ fn ite_block<K: C10Kind>(ctx: &mut Ctx, cfg: &Cfg, ts: &[usize], es: &[usize], b
 }
 
 fn basic_block<K: C10Kind>(ctx: &mut Ctx, cfg: &Cfg) {
+    let all: Vec<usize> = (0..pow7(1 << cfg.n)).collect();
+    basic_block_on::<K>(ctx, cfg, all)
+}
+
+/// build + eval, constant + var, restrict for the given tables
+fn basic_block_on<K: C10Kind>(ctx: &mut Ctx, cfg: &Cfg, all: Vec<usize>) {
     let n = cfg.n;
-    let total = pow7(1 << n);
-    let all: Vec<usize> = (0..total).collect();
+    let total = all.len();
     let ostr = model::order_str(&cfg.order);
     let cfg = cfg.clone();
 
@@ -1004,6 +1014,7 @@ fn run_k<K: C10Kind>(ctx: &mut Ctx, shard: &str) {
                 ctx.group(&format!("all tables part {p} x all tables {}", op.name()), |ctx| bin_pairs::<K>(ctx, &cfg, op, &lhs, &all, false));
             }
         }
+        (3, "eval") => basic_block_on::<K>(ctx, &cfg, set_n3()),
         (3, "bin") => {
             let s = set_n3();
             assert_eq!(s.len(), 179, "harness: n = 3 operand set");
